@@ -65,6 +65,34 @@ let show_out o =
 let rec take_n n l = if n = 0 then ([], l) else
   match l with [] -> failwith "ns: too few tokens" | x :: r -> let (a, b) = take_n (n - 1) r in (x :: a, b)
 
+(* ops that are not events of the session machine by themselves:
+   K<secs>  keepalive period of a natural-time case (driver only)
+   H<sid>,<mid>,<newmid>,<newtok>  the application's nack handler, when called for <mid> after a
+            give-up or a Reset, submits CON <newmid> from inside the callback.  In the code the
+            handler is called at the very end of the event, so this is the event followed at once
+            by NsSubmit (its outputs are printed in the same group, a / x for NsAcc / NsRef)
+   G<sid>   the keepalive period is over: the library submits its own empty CON (ping), id
+            50001 + 1000*sid onwards, iff the session is open, established and con_active = 0 *)
+let is_plain_op op = op <> "" && (op.[0] = 'K' || op.[0] = 'H')
+
+let parse_hook op =
+  match split_commas (rest op) with
+  | [sid; mid; nm; nt] -> (int_of_string sid, int_of_string mid, int_of_string nm, int_of_string nt)
+  | _ -> failwith ("ns hook " ^ op)
+
+let hook_for hooks sid outs =
+  (* the message resubmitted by the nack handler for this event's NACK, if any *)
+  List.fold_left (fun acc o ->
+    match acc, o with
+    | None, NsNack (r, mid, _) when (int_of_z r = 0 || int_of_z r = 2) ->
+        (match List.find_opt (fun (s, m, _, _, used) -> s = sid && m = int_of_z mid && not !used) !hooks with
+         | Some (_, _, nm, nt, used) -> used := true;
+             Some { ns_con = true; ns_mid = z_of_int nm; ns_tok = z_of_int nt }
+         | None -> None)
+    | _ -> acc) None outs
+
+let ping_can_go (s : ns_st) = s.ns_open && s.ns_est && int_of_z s.ns_act = 0
+
 let ns toks =
   match toks with
   | fx :: nsess :: tl ->
@@ -73,16 +101,42 @@ let ns toks =
       let cfgs = Array.of_list (List.map (parse_cfg (fx = "1")) cfgs) in
       let st = Array.init n (fun k -> ns_init (snd cfgs.(k))) in
       let wfail = ref false in        (* the next socket write of the context fails *)
+      let hooks = ref [] in
+      let pings = Array.make n 0 in
       let b = Buffer.create 256 in
+      let step sid ev =
+        let (x', outs) = nsf_step (fst cfgs.(sid)) { nsf_s = st.(sid); nsf_wfail = !wfail } (NsfEv ev) in
+        st.(sid) <- x'.nsf_s;
+        wfail := x'.nsf_wfail;
+        outs in
       List.iteri (fun i op ->
         let items =
           if is_err_op op then (wfail := true; [])
+          else if op.[0] = 'K' then []
+          else if op.[0] = 'H' then begin
+            let (sid, mid, nm, nt) = parse_hook op in
+            hooks := !hooks @ [(sid, mid, nm, nt, ref false)]; []
+          end
+          else if op.[0] = 'G' then begin
+            let sid = int_of_string (rest op) in
+            if (fst cfgs.(sid)).ns_client && ping_can_go st.(sid) then begin
+              pings.(sid) <- pings.(sid) + 1;
+              let m = { ns_con = true; ns_mid = z_of_int (50000 + 1000 * sid + pings.(sid)); ns_tok = Z0 } in
+              List.filter_map (fun o -> match o with NsAcc | NsRef -> None | _ -> show_out o)
+                (step sid (NsSubmit m))
+            end else []
+          end
           else begin
             let (sid, ev) = parse_op op in
-            let (x', outs) = nsf_step (fst cfgs.(sid)) { nsf_s = st.(sid); nsf_wfail = !wfail } (NsfEv ev) in
-            st.(sid) <- x'.nsf_s;
-            wfail := x'.nsf_wfail;
-            List.filter_map show_out outs
+            let outs = step sid ev in
+            let nested =
+              match (match ev with NsFail _ -> None | _ -> hook_for hooks sid outs) with
+              | None -> []
+              | Some m ->
+                  let o2 = step sid (NsSubmit m) in
+                  ["("] @ List.filter_map (fun o -> match o with NsAcc | NsRef -> None | _ -> show_out o) o2
+                  @ [if List.mem NsRef o2 then "x" else "a"] in
+            List.filter_map show_out outs @ nested
           end in
         if i > 0 then Buffer.add_char b ' ';
         Buffer.add_string b (Printf.sprintf "%d:%s" i (String.concat "," items))) ops;
@@ -93,7 +147,7 @@ let ns toks =
 let parse_items seen s : ns_out list =
   if s = "-" || s = "" then [] else
   List.filter_map (fun it ->
-    if it = "Wm" then None
+    if it = "Wm" || it = "a" || it = "x" || it = "(" then None
     else if it = "A" then Some NsAcc
     else if it = "X" then Some NsRef
     else if it.[0] = 'T' then begin
@@ -118,32 +172,81 @@ let parse_items seen s : ns_out list =
     end
     else failwith ("ns item " ^ it)) (split_commas s)
 
+(* the implementation's trace per session as (event, outputs) lists.
+   - G with a datagram = the library's own submission (NsSubmit with NsAcc); G without = nothing
+   - a group with a nested submission (marker a / x, hook H known): the event itself, followed by
+     NsSubmit of the hooked message with the marker as its result and its own datagram, if any *)
+let build_traces n (toks : string list) wrap =
+  let traces = Array.make n [] in
+  let seen = Array.init n (fun _ -> Hashtbl.create 16) in
+  let idx = Array.make n [] in
+  let hooks = ref [] in
+  let push sid i ev outs =
+    traces.(sid) <- (wrap ev, outs) :: traces.(sid);
+    idx.(sid) <- i :: idx.(sid) in
+  let rec go i l =
+    match l with
+    | [] -> ()
+    | op :: items :: r ->
+        if is_err_op op || op.[0] = 'K' then ()
+        else if op.[0] = 'H' then begin
+          let (sid, mid, nm, nt) = parse_hook op in
+          hooks := !hooks @ [(sid, mid, nm, nt, ref false)]
+        end
+        else if op.[0] = 'G' then begin
+          let sid = int_of_string (rest op) in
+          match parse_items seen.(sid) items with
+          | [] -> ()
+          | (NsTx m :: _) as outs -> push sid i (NsSubmit m) (NsAcc :: outs)
+          | outs -> push sid i NsUp outs          (* anything else is unexpected: let it be judged *)
+        end
+        else begin
+          let (sid, ev) = parse_op op in
+          let its = if items = "-" || items = "" then [] else split_commas items in
+          (* scan the items in order; "(" closes the event so far, what follows up to the marker
+             a / x is the nested submission of the message hooked to the NACK seen last; what comes
+             after that belongs to a continuation of the same library call (judged as a timer event) *)
+          let cur = ref [] and cur_ev = ref ev and pending = ref its in
+          let flush () = push sid i !cur_ev (List.rev !cur); cur := []; cur_ev := NsTick Z0 in
+          while !pending <> [] do
+            (match !pending with
+             | "(" :: tl ->
+                 let hooked = (match ev with NsFail _ -> None | _ -> hook_for hooks sid (List.rev !cur)) in
+                 let rec upto acc l = match l with
+                   | ("a" | "x" as mk) :: r -> (List.rev acc, mk, r)
+                   | y :: r -> upto (y :: acc) r
+                   | [] -> (List.rev acc, "a", []) in
+                 let (inner, mk, tl') = upto [] tl in
+                 flush ();
+                 let outs = List.concat_map (fun y -> parse_items seen.(sid) y) inner in
+                 (match hooked with
+                  | Some m -> push sid i (NsSubmit m) ((if mk = "a" then NsAcc else NsRef) :: outs)
+                  | None -> push sid i NsUp outs);       (* unexpected: let it be judged *)
+                 pending := tl'
+             | it :: tl -> cur := List.rev_append (parse_items seen.(sid) it) !cur; pending := tl
+             | [] -> ())
+          done;
+          if !cur <> [] || !cur_ev == ev then push sid i !cur_ev (List.rev !cur)
+        end;
+        go (i + 1) r
+    | _ -> failwith "nsmon: odd tokens" in
+  go 0 toks;
+  (Array.map List.rev traces, Array.map List.rev idx)
+
 let nsmon toks =
   match toks with
   | nsess :: tl ->
       let n = int_of_string nsess in
       let (cfgs, rest_) = take_n n tl in
       let cfgs = Array.of_list (List.map (parse_cfg true) cfgs) in
-      let traces = Array.make n [] in
-      let seen = Array.init n (fun _ -> Hashtbl.create 16) in
-      let idx = Array.make n [] in
-      let rec go i l =
-        match l with
-        | [] -> ()
-        | op :: items :: r ->
-            let (sid, ev) = parse_op op in
-            traces.(sid) <- (ev, parse_items seen.(sid) items) :: traces.(sid);
-            idx.(sid) <- i :: idx.(sid);
-            go (i + 1) r
-        | _ -> failwith "nsmon: odd tokens" in
-      go 0 rest_;
+      let (traces, idx) = build_traces n rest_ (fun e -> e) in
       let bad = ref [] in
       for k = n - 1 downto 0 do
         let (c, est0) = cfgs.(k) in
-        let t = List.rev traces.(k) in
-        match ns_mon_first_bad c { ns_mopen = true; ns_mest = est0; ns_minfl = []; ns_mpend = [] } t Z0 with
+        match ns_mon_first_bad c { ns_mopen = true; ns_mest = est0; ns_minfl = []; ns_mpend = [] }
+                traces.(k) Z0 with
         | None -> ()
-        | Some j -> bad := Printf.sprintf "bad sid=%d op=%d" k (List.nth (List.rev idx.(k)) (int_of_z j)) :: !bad
+        | Some j -> bad := Printf.sprintf "bad sid=%d op=%d" k (List.nth idx.(k) (int_of_z j)) :: !bad
       done;
       if !bad = [] then "ok" else String.concat " " !bad
   | _ -> failwith "nsmon args"
@@ -156,26 +259,13 @@ let nsbound toks =
       let n = int_of_string nsess in
       let (cfgs, rest_) = take_n n tl in
       let cfgs = Array.of_list (List.map (parse_cfg true) cfgs) in
-      let traces = Array.make n [] in
-      let seen = Array.init n (fun _ -> Hashtbl.create 16) in
-      let idx = Array.make n [] in
-      let rec go i l =
-        match l with
-        | [] -> ()
-        | op :: items :: r ->
-            if not (is_err_op op) then begin
-              let (sid, ev) = parse_op op in
-              traces.(sid) <- (NsfEv ev, parse_items seen.(sid) items) :: traces.(sid);
-              idx.(sid) <- i :: idx.(sid)
-            end;
-            go (i + 1) r
-        | _ -> failwith "nsbound: odd tokens" in
-      go 0 rest_;
+      let (traces, idx) = build_traces n rest_ (fun e -> e) in
       let bad = ref [] in
       for k = n - 1 downto 0 do
-        match nsb_run (fst cfgs.(k)) [] (List.rev traces.(k)) Z0 with
+        let t = List.map (fun (e, o) -> (NsfEv e, o)) traces.(k) in
+        match nsb_run (fst cfgs.(k)) [] t Z0 with
         | None -> ()
-        | Some j -> bad := Printf.sprintf "bad sid=%d op=%d" k (List.nth (List.rev idx.(k)) (int_of_z j)) :: !bad
+        | Some j -> bad := Printf.sprintf "bad sid=%d op=%d" k (List.nth idx.(k) (int_of_z j)) :: !bad
       done;
       if !bad = [] then "ok" else String.concat " " !bad
   | _ -> failwith "nsbound args"
